@@ -264,6 +264,9 @@ def run(tier, r):
              "min_gap_between_balls": math.inf, "balls_without_sphere_probe": 0}
     nontrivial = 0
     for n, k in inst:
+        if oc.common.past_oracle_cap() or len(violations) >= 60:
+            stats["stopped_early"] = "deep-search time cap or enough violations"
+            break
         iseed = r.getrandbits(48)
         res, err = oc.guarded(check_instance, n, k, iseed, nbox, ndir)
         if err is not None:
